@@ -109,9 +109,13 @@ package db
 //@ updates closes
 //@ ensures closes == upd(old(closes), recv, 1)
 
+// ghost count of the lookup contexts created: one per reader pinned (C05: one reader, one generation, per response)
+//@ ghostvar ncontexts nat
 //@ func DBI.NewContext
 //@ trusted
 //@ requires closes[recv] == 0
+//@ updates ncontexts
+//@ ensures ncontexts == old(ncontexts) + 1
 //@ func DBI.FreeContext
 //@ trusted
 //@ requires closes[recv] == 0
@@ -167,6 +171,9 @@ package db
 //@ ensures[inv] db != nil && old(db.refCount) < 18446744073709551615 ==> dbInv(db)
 //@ ensures[closes] closes == old(closes)
 //@ ensures[pins] db != nil ==> rdb(result0) == db
+//@ updates ncontexts
+//@ ensures[one-context] db != nil ==> ncontexts == old(ncontexts) + 1
+//@ ensures[no-context] db == nil ==> ncontexts == old(ncontexts)
 
 //@ func DataReader.Close
 //@ updates closes
